@@ -46,6 +46,14 @@ def c41_runs(tier):
     # spurious compare_exchange_weak failures (bytesAllocated's lock loop, moodycamel's free lists)
     sba(dict(sz=256, t0='a', t1='b'), 2 if q else 3, opts=dict(casfail=2))
     sba(dict(sz=256, t0='ab', t1='ba'), 2, opts=dict(casfail=2), budget=90)
+    if not q:
+        # deeper: three deviations on the central shapes, two deviations at block size 64
+        sba(dict(sz=256, t0='a', t1='a'), 3, budget=400)
+        sba(dict(sz=256, t0='ab', t1='ba'), 3, budget=400)
+        sba(dict(sz=256, warm=2, t0='d', t1='a'), 3, budget=400)
+        sba(dict(sz=64, t0='a', t1='a'), 2, budget=200)
+        sba(dict(sz=64, warm=2, t0='d', t1='a'), 2, budget=200)
+        sba(dict(sz=64, t0='sa', h='ad'), 2, budget=200)
     # sanitizer legs: a race on allocator metadata voids the guarantee (tsan); heap misuse (asan)
     sba(dict(sz=256, t0='a', t1='b'), 1 if q else 2, mode='tsan', budget=120)
     sba(dict(sz=256, t0='axa', t1='Ra'), 1, mode='asan', budget=90)
@@ -62,7 +70,7 @@ def c41_runs(tier):
 
 reg('C41', level='model_checking', runs=c41_runs, quick_budget_s=400, thorough_budget_s=1800,
     technique='stateless model checking of the real SmallBufferAllocator (thread-local caches, moodycamel central store, backing-store spin lock) with an ownership map; TSan and ASan legs; spurious weak-CAS failures',
-    level_text='1-3 threads (plus helper threads that exit) running histories of <=3 operations over {alloc, dealloc own, hand a block to another thread which deallocates it, approxBytesAllocatedSmallBuffer, thread exit returning the cache}, block sizes 8/64/256 (512 = alignedMalloc path), on a cold allocator and on three warmed states (central store filled; cache one short of the recycle threshold; central store drained); every interleaving with <=2 deviations for two threads at size 256 (<=1 for three threads and the bigger sizes in quick). Oracle: address map of live blocks (no block handed out twice, no overlap, alignment = size, block inside a backing-store slab, contents of a live block untouched), occupancy of the backing-store critical section (a slab creation and an approxBytes call never overlap), lock word free at quiescence, and a final drain by T0 of every block the allocator owns (a block sitting twice in the caches or the central store is handed out twice there); the same shapes under ThreadSanitizer must be race free.',
+    level_text='1-3 threads (plus helper threads that exit) running histories of <=3 operations over {alloc, dealloc own, hand a block to another thread which deallocates it, approxBytesAllocatedSmallBuffer, thread exit returning the cache}, block sizes 8/64/256 (512 = alignedMalloc path), on a cold allocator and on three warmed states (central store filled; cache one short of the recycle threshold; central store drained); every interleaving with <=2 deviations for two threads at size 256 (<=1 for three threads and the bigger sizes in quick; thorough adds <=3 deviations on three central shapes and <=2 at size 64). Oracle: address map of live blocks (no block handed out twice, no overlap, alignment = size, block inside a backing-store slab, contents of a live block untouched), occupancy of the backing-store critical section (a slab creation and an approxBytes call never overlap), lock word free at quiescence, and a final drain by T0 of every block the allocator owns (a block sitting twice in the caches or the central store is handed out twice there); the same shapes under ThreadSanitizer must be race free.',
     level_note='SC interleavings; weak-CAS spurious failures explored (casfail=2); TSan legs on five shapes, ASan legs on three. The allocator globals are rebuilt before every execution (cold start), warm paths are reached by a single-threaded prefix inside the body.',
     design_ref='DESIGN.md section 4, C41', assumptions=MC_ASSUME, rule=RULE,
     guards=[need_cover('sba_create_slab', 'sba_central_dequeue', 'sba_tl_pop', 'sba_foreign_dealloc', 'sba_recycle', 'sba_exit_with_cache',
@@ -210,8 +218,8 @@ def c26_runs(tier):
     acts, whens = '0|1|2', ('0|2|4' if q else '0|1|2|3|4')
     # ThreadPool(1): the call runs on the pool thread, three threads plus T0
     for n, per, steady, delay in [(1, 0, 0, 300), (2, 0, 0, 0), (2, 1000, 0, 300)] + ([] if q else [(1, 0, 0, 0), (3, 1000, 1, 300), (3, 0, 0, 0)]):
-        fa = '|'.join(str(j) for j in range(0, min(n, 2) + 1))
-        tt(dict(pool=1, n=n, per=per, steady=steady, delay=delay, fa=fa, act=acts, when='0|2|3|4'), 1, budget=120 if q else 300)
+        fa = '|'.join(str(j) for j in range(0, min(n, 1 if q else 2) + 1))
+        tt(dict(pool=1, n=n, per=per, steady=steady, delay=delay, fa=fa, act=acts, when='0|3|4' if q else '0|2|3|4'), 1, budget=120 if q else 300)
     # kImmediateInvoker: the call runs on the kicking thread (T0 for a task that is already due, else the scheduler thread)
     shapes = [(1, 0, 0, 300), (2, 0, 0, 0), (2, 1000, 0, 300), (3, 1000, 1, 300)]
     if not q:
@@ -226,8 +234,8 @@ def c26_runs(tier):
     tt(dict(pool=0, n=2, per=1000, steady=0, delay=300, fa='0|1', act=acts, when='0|1|4'), 2, opts=dict(timeout_race=1), budget=120)
     # sanitizer legs: ASan sees a cleared function object being used, TSan the unsynchronised access to it
     sb = 70 if q else 200
-    tt(dict(pool=1, n=1, per=0, delay=300, fa=0, act='1|2', when=4), 1, mode='asan', budget=sb)
-    tt(dict(pool=1, n=2, per=0, delay=0, fa='0|1', act=0), 1, mode='asan', budget=sb)
+    tt(dict(pool=1, n=1, per=0, delay=300, fa=0, act='2' if q else '1|2', when=4), 1, mode='asan', budget=sb)
+    tt(dict(pool=1, n=2, per=0, delay=0, fa='1' if q else '0|1', act=0), 1, mode='asan', budget=sb)
     tt(dict(pool=0, n=2, per=0, delay=0, fa='0|1', act=acts, when=0), 1, mode='tsan', budget=sb)
     if not q:
         tt(dict(pool=0, n=2, per=0, delay=0, fa='0|1', act=acts, when='0|4'), 1, mode='asan', budget=sb)
